@@ -936,3 +936,126 @@ func ruleSortedList(p *Prog, r *Report, le *litEval, pkg, name string, floor int
 	}
 	r.OK(rule, pkg+"."+name, p.Pos(lv.Pos), fmt.Sprintf("%d entries strictly increasing", len(lv.Elems)))
 }
+
+// ruleBisect: every sort.Search in the module whose predicate indexes a package-level table literal and compares one of its
+// fields (or the element itself) with a searched value requires that table to be sorted by that field.
+func ruleBisect(p *Prog, r *Report, le *litEval) {
+	const rule = "R-BISECT"
+	n := 0
+	for _, f := range p.ModFns() {
+		for _, b := range f.Blocks {
+			for _, in := range b.Instrs {
+				call, ok := in.(*ssa.Call)
+				if !ok {
+					continue
+				}
+				sc := call.Common().StaticCallee()
+				if sc == nil || sc.String() != "sort.Search" {
+					continue
+				}
+				var pred *ssa.Function
+				switch x := call.Common().Args[1].(type) {
+				case *ssa.MakeClosure:
+					pred, _ = x.Fn.(*ssa.Function)
+				case *ssa.Function:
+					pred = x
+				}
+				if pred == nil {
+					continue
+				}
+				// predicate: compares T[i] or T[i].F, T a package-level variable with a literal
+				for _, pb := range pred.Blocks {
+					for _, pin := range pb.Instrs {
+						bo, ok := pin.(*ssa.BinOp)
+						if !ok {
+							continue
+						}
+						for _, side := range []ssa.Value{bo.X, bo.Y} {
+							g, field := tableElem(side)
+							if g == nil {
+								continue
+							}
+							v, ok := g.Object().(*types.Var)
+							if !ok || !le.HasInit(v) {
+								continue
+							}
+							n++
+							key := p.FnName(f) + "/" + g.Name()
+							r.Instance(rule, key)
+							lv := le.Var(v)
+							if lv.Kind != LList {
+								continue
+							}
+							sorted, at := true, -1
+							var prev *LV
+							for i, e := range lv.Elems {
+								cur := e
+								if field != "" {
+									cur = le.resolve(e).field(field)
+								}
+								if cur == nil {
+									sorted, at = false, i
+									break
+								}
+								if prev != nil && !lvLess(prev, cur) {
+									sorted, at = false, i
+									break
+								}
+								prev = cur
+							}
+							what := g.Name()
+							if field != "" {
+								what += "[i]." + field
+							}
+							r.Check(sorted, rule, key, p.IPos(call), fmt.Sprintf("sort.Search over %s requires the table to be strictly increasing by that key%s", what, map[bool]string{true: "", false: fmt.Sprintf(" — entry %d is out of order: the bisection misses entries", at)}[sorted]))
+						}
+					}
+				}
+			}
+		}
+	}
+	r.Count("bisections_over_tables", n)
+}
+
+// tableElem: v is (a load of) T[i] or T[i].F for a package-level T.
+func tableElem(v ssa.Value) (*ssa.Global, string) {
+	v = stripConv(v)
+	field := ""
+	if u, ok := v.(*ssa.UnOp); ok && u.Op == token.MUL {
+		v = u.X
+	}
+	if fa, ok := v.(*ssa.FieldAddr); ok {
+		field = fieldOf(fa).Name()
+		v = fa.X
+	}
+	if fv, ok := v.(*ssa.Field); ok {
+		field = fieldOf(fv).Name()
+		v = fv.X
+		if u, ok := v.(*ssa.UnOp); ok && u.Op == token.MUL {
+			v = u.X
+		}
+	}
+	ia, ok := v.(*ssa.IndexAddr)
+	if !ok {
+		return nil, ""
+	}
+	g, ok := ia.X.(*ssa.Global)
+	if !ok {
+		return nil, ""
+	}
+	return g, field
+}
+
+func lvLess(a, b *LV) bool {
+	if x, ok := a.Int(); ok {
+		if y, ok := b.Int(); ok {
+			return x < y
+		}
+	}
+	if x, ok := a.Str(); ok {
+		if y, ok := b.Str(); ok {
+			return x < y
+		}
+	}
+	return false
+}
